@@ -141,6 +141,9 @@ def gen_step(s: Choices, ds, tier, early=False):
             # sometimes on a second key array of the same length (reversed rows): anything the
             # class form remembers between calls must not leak from one key array to another
             step["alt"] = s.chance(1, 4)
+            # the key buffer belongs to the caller, who may refill it between two class-form
+            # calls: nothing may be remembered about its earlier content
+            step["refill_keys_first"] = s.chance(1, 3)
         return step
     if kind == "copy_ctor":
         return {"kind": "copy_ctor", "target": s.draw(4)}
@@ -170,6 +173,24 @@ class _Forced:
         if name in ("chance", "pick", "weighted", "small"):
             return lambda *a, **k: getattr(Choices, name)(self, *a, **k)
         return getattr(s, name)
+
+
+def _refill_in_place(keys) -> bool:
+    """The client reverses the content of its own key buffer(s), keeping the objects."""
+    import pandas as pd
+
+    done = False
+    for k in keys if isinstance(keys, list) else [keys]:
+        try:
+            if isinstance(k, np.ndarray) and k.flags.writeable:
+                k[:] = k[::-1].copy()
+                done = True
+            elif isinstance(k, pd.Series) and isinstance(k.dtype, np.dtype):
+                k.iloc[:] = k.to_numpy()[::-1].copy()
+                done = True
+        except Exception:
+            pass
+    return done
 
 
 def _step_call(gb, step, ds, lay, class_keys=None, client=None):
@@ -269,6 +290,12 @@ def gen_scenario(scen: Choices, cls, cfg):
                 op_["mask_ref"] = j
         steps.append(step)
         scen.end(b_)
+        if step["kind"] == "class_form" and len(steps) < max_steps and scen.chance(1, 2):
+            # class-form calls come in bursts on one key object
+            b_ = scen.begin()
+            fam = scen.weighted([(4, "basic"), (2, "composite"), (3, "rowwise"), (3, "select")])
+            steps.append({"kind": "class_form", "op": ops.gen_op(scen, fam, ds), "target": 0, "alt": step.get("alt", False), "refill_keys_first": scen.chance(1, 2)})
+            scen.end(b_)
     if not steps:
         steps = [gen_step(Choices(replay=[]), ds, tier)]
     nsteps = len(steps)
@@ -395,6 +422,8 @@ def execute(sc, sched: Choices, cls, cfg):
                 if ck not in client:
                     dsk = dict(ds, key_codes=[list(reversed(kc)) for kc in ds["key_codes"]]) if step.get("alt") else ds
                     client[ck] = gen.build_keys(dsk, lay)
+                elif step.get("refill_keys_first") and _refill_in_place(client[ck]):
+                    probes.add("client_refilled_key_buffer")
                 class_keys = client[ck]
                 model = _outcome(lambda: _step_call(GroupBy(class_keys), dict(step, kind="op"), ds, lay, client=client))
             else:
